@@ -2,7 +2,7 @@ SPECIFICATION Spec
 CONSTANTS
   Writers = {1, 2}
   Readers = {5}
-  NTxn = 2
+  NTxn = 1
   NReads = 1
   MCHows = {"commit", "rollback"}
   Plans <- MCPlansLive
@@ -11,6 +11,7 @@ CONSTANTS
   Policers = {7}
   PPlans <- MCPPlans
 PROPERTY AbsSpec
+PROPERTY AbsNoCuts
 INVARIANT AbsIndInv
 INVARIANT AbsSafety
 INVARIANT SameProperties
